@@ -38,6 +38,11 @@ def check(repo: Repo) -> Result:
     invalidation(repo, res)
     cache_keys(repo, res)
     immutability(repo, res)
+    from rules import c05
+    from rules.common import share
+
+    r5 = res.rule("C12-R5", "the memoised unit rules are found by Unit.__hash__ / __eq__: equality ignores the spelling, so the hash must include the expression (the result's expression is built from the operands'), and the registry contents id", floor=1)
+    share(res, r5, "C05", lambda t: t.__dict__.update(c05.check(repo).__dict__), ["C05-R2"], want=lambda k: k == "hash-footprint")
     return res
 
 
@@ -136,6 +141,39 @@ def invalidation(repo, res):
         pfx = norm(loops[0].target.elts[0]) if isinstance(loops[0].target, ast.Tuple) else "?"
         ok = dels == [f"del self.lut[{pfx} + {sym}]"]
     res.check(ok, "_forget_prefixed", fp.where(), "the purge visits every prefix spelling and deletes the derived row prefix+symbol", rid=r2)
+    # which rows count as derived: the purge recomputes the row the lookup wrote - scale = entry scale * prefix value,
+    # the very floating-point product of the writer (C02-R2) - and compares for equality.  Undoing the product by a
+    # division (derived[0] / prefix_value == entry[0]) is not the same test: (v * p) / p != v for many doubles, and the
+    # stale row then survives the edit.
+    if ok:
+        from engine.sem import summarise
+
+        lp = loops[0]
+        keep = {x.id for x in ast.walk(lp.target) if isinstance(x, ast.Name)} | {sym}
+        entry_names = [norm(n.targets[0]) for n in fp.body if isinstance(n, ast.Assign) and norm(n.value) == f"self.lut[{sym}]"]
+        keep |= set(entry_names)
+        pv = norm(lp.target.elts[1].elts[0]) if isinstance(lp.target, ast.Tuple) and isinstance(lp.target.elts[1], ast.Tuple) else None
+        bad_tests, n_del = [], 0
+        for x in summarise(fp, body=lp.body, keep=keep):
+            if not any(e.startswith("del self.lut[") for e in x.effects):
+                continue
+            n_del += 1
+            good = False
+            for t, tr in x.facts:
+                if "==" not in t or not tr:
+                    continue
+                node = ast.parse(t, mode="eval").body
+                ops = [type(b.op) for b in ast.walk(node) if isinstance(b, ast.BinOp)]
+                names = {norm(a) for a in ast.walk(node) if isinstance(a, (ast.Subscript, ast.Name))}
+                entry_scale = any(f"{e}[0]" in names for e in entry_names) or f"self.lut[{sym}][0]" in names
+                if entry_scale and pv in names:
+                    if ast.Div in ops or ast.FloorDiv in ops or ast.Pow in ops:
+                        bad_tests.append(t)
+                    elif ast.Mult in ops:
+                        good = True
+            if not good and not bad_tests:
+                bad_tests.append("no comparison with entry scale * prefix value on the deleting path: " + "; ".join(t for t, _ in sorted(x.facts))[:160])
+        res.check(n_del >= 1 and not bad_tests, "_forget_prefixed:recogniser", fp.where(), "a derived row is recognised by recomputing it as the lookup wrote it (entry scale * prefix value, compared with ==); a test that divides the prefix back out misses rows for which (v*p)/p != v in floating point, and those keep the old definition after modify / add / remove", "derived[:3] == (entry[0] * prefix_value, entry[1], entry[2])", bad_tests[:2], rid=r2)
     # define_unit goes through add
     du = repo.mod(UO).func("define_unit")
     calls = [norm(c.func) for c in ast.walk(du.node) if isinstance(c, ast.Call)]
@@ -212,4 +250,7 @@ MUTANTS = [
     Mutant("setstate-global-memo", ARR, "unyt_array.__setstate__", "        self.units = Unit(unit, registry=registry)", "        _SEEN[unit, frozenset(lut)] = Unit(unit, registry=registry)\n        self.units = _SEEN[unit, frozenset(lut)]", ("C12-R1",), more=[(ARR, None, "NULL_UNIT = Unit()\n", "NULL_UNIT = Unit()\n_SEEN = {}\n", 1)]),
     Mutant("twin-em-check-registry-alias", ARR, "unyt_array.in_units", "self.units, units, registry=self.units.registry", "self.units, to_unit=units, registry=self.units.registry", (), benign=True),
     Mutant("unit-value-rewritten", UO, "Unit.as_coeff_unit", "        coeff = float(coeff)\n", "        coeff = float(coeff)\n        self.base_value = self.base_value / coeff\n", ("C12-R4",)),
+    Mutant("purge-divides-prefix-out", REG, "UnitRegistry._forget_prefixed", "and derived[:3] == (entry[0] * prefix_value, entry[1], entry[2])", "and (derived[0] / prefix_value, derived[1], derived[2]) == entry[:3]", ("C12-R2",)),
+    Mutant("purge-product-commuted", REG, "UnitRegistry._forget_prefixed", "and derived[:3] == (entry[0] * prefix_value, entry[1], entry[2])", "and derived[:3] == (prefix_value * entry[0], entry[1], entry[2])", (), benign=True),
+    Mutant("hash-without-expr", UO, "Unit.__hash__", "hash(self.expr)", "hash(self.base_value)", ("C12-R5",)),
 ]
